@@ -17,52 +17,98 @@ import (
 var c20Direct = []string{"s", "ism", "ibig", "flt", "b", "t", "tags", "nums", "friends", "meta"}
 var c20AlwaysPublic = map[string]bool{"id": true, "grp": true, "owner": true}
 
-// referenced collects the symbols a query references (map elements reported by their full name).
-func referenced(e qx.Expr, out map[string]bool) {
+// referenced collects the symbols a query references (map elements reported by their full name). Symbols inside a
+// sub-query (its predicate at any depth and its sort clause) go to inner.
+func referenced(e qx.Expr, out, inner map[string]bool) {
+	sub := func(sq *qx.SubQ) {
+		out[sq.Set] = true
+		if sq.Q != nil {
+			if sq.Q.Pred != nil {
+				referenced(sq.Q.Pred, inner, inner)
+			}
+			for _, f := range sq.Q.Sort {
+				inner[f.Sym] = true
+			}
+		}
+	}
 	switch x := e.(type) {
 	case qx.And:
-		referenced(x.L, out)
-		referenced(x.R, out)
+		referenced(x.L, out, inner)
+		referenced(x.R, out, inner)
 	case qx.Or:
-		referenced(x.L, out)
-		referenced(x.R, out)
+		referenced(x.L, out, inner)
+		referenced(x.R, out, inner)
 	case qx.Not:
-		referenced(x.E, out)
+		referenced(x.E, out, inner)
 	case qx.BoolSym:
 		out[x.Name] = true
 	case qx.Cmp:
 		if x.L.Sub != nil {
-			out[x.L.Sub.Set] = true
+			sub(x.L.Sub)
 		} else {
 			out[x.L.Sym] = true
 		}
 	case qx.IsEmpty:
 		if x.Sub != nil {
-			out[x.Sub.Set] = true
+			sub(x.Sub)
 		} else {
 			out[x.Sym] = true
 		}
 	}
 }
 
-// stripSubQueries replaces sub-query predicates by `true`: which store the inner symbols must be public for is not
-// fixed by the statement, the set symbol of the sub-query is.
-func stripSubQueries(e qx.Expr) qx.Expr {
+// innerPublicExpected: the statement asks that every referenced symbol, at any nesting depth, is public FOR THE STORE the
+// query is validated against. A name inside a sub-query is therefore judged by that store's visibility of the same
+// name; a name the store does not know is not public for it.
+func innerPublicExpected(sym string, private map[string]bool, publicDotted map[string]bool) bool {
+	known := c20AlwaysPublic[sym] || strings.HasPrefix(sym, "meta.")
+	for _, d := range c20Direct {
+		if d == sym {
+			known = true
+		}
+	}
+	if !known {
+		return false
+	}
+	return isPublicExpected(sym, private, publicDotted)
+}
+
+// shapeSubQueries rewrites the sub-queries of a generated filter: the inner predicate is kept as generated (symbols of the
+// linked store), or replaced by `true`, or by a predicate over names the outer store also knows (id, tags); half of them
+// get a sort clause over inner names.
+func shapeSubQueries(e qx.Expr, r *core.Rand) qx.Expr {
+	shape := func(sq *qx.SubQ) *qx.SubQ {
+		q := &qx.Query{Pred: sq.Q.Pred, Skip: sq.Q.Skip, Limit: sq.Q.Limit}
+		switch r.Intn(4) {
+		case 0:
+			q.Pred = qx.Const{V: true}
+		case 1:
+			q.Pred = qx.Cmp{L: qx.LHS{Kind: "sym", Sym: "id"}, Op: "!=", R: []qx.Lit{qx.LStr("x")}}
+		case 2:
+			q.Pred = qx.Cmp{L: qx.LHS{Kind: "anyOf", Sym: "tags"}, Op: "=", R: []qx.Lit{qx.LStr("x")}}
+		}
+		if r.Bool() {
+			for i, n := 0, 1+r.Intn(2); i < n; i++ {
+				q.Sort = append(q.Sort, qx.SortF{Sym: core.Pick(r, []string{"id", "name", "rank"}), Dir: core.Pick(r, []string{"", "asc", "desc"})})
+			}
+		}
+		return &qx.SubQ{Set: sq.Set, Q: q}
+	}
 	switch x := e.(type) {
 	case qx.And:
-		return qx.And{L: stripSubQueries(x.L), R: stripSubQueries(x.R)}
+		return qx.And{L: shapeSubQueries(x.L, r), R: shapeSubQueries(x.R, r)}
 	case qx.Or:
-		return qx.Or{L: stripSubQueries(x.L), R: stripSubQueries(x.R)}
+		return qx.Or{L: shapeSubQueries(x.L, r), R: shapeSubQueries(x.R, r)}
 	case qx.Not:
-		return qx.Not{E: stripSubQueries(x.E)}
+		return qx.Not{E: shapeSubQueries(x.E, r)}
 	case qx.Cmp:
 		if x.L.Sub != nil {
-			x.L.Sub = &qx.SubQ{Set: x.L.Sub.Set, Q: &qx.Query{Pred: qx.Const{V: true}, Skip: x.L.Sub.Q.Skip, Limit: x.L.Sub.Q.Limit}}
+			x.L.Sub = shape(x.L.Sub)
 		}
 		return x
 	case qx.IsEmpty:
 		if x.Sub != nil {
-			x.Sub = &qx.SubQ{Set: x.Sub.Set, Q: &qx.Query{Pred: qx.Const{V: true}}}
+			x.Sub = shape(x.Sub)
 		}
 		return x
 	}
@@ -89,6 +135,15 @@ func isPublicExpected(sym string, private map[string]bool, publicDotted map[stri
 
 // buildC20Store builds the things store with the given symbols non-public, or (viaChild) a child store layered on it
 // that is granted the parent's symbols (scalars, sets, the map symbol) and their visibility.
+func contains(l []string, s string) bool {
+	for _, x := range l {
+		if x == s {
+			return true
+		}
+	}
+	return false
+}
+
 func buildC20Store(private map[string]bool, publicDotted map[string]bool, viaChild bool) *schema.St {
 	defs := qx.DefsPrivate(private)
 	if viaChild {
@@ -139,11 +194,11 @@ func init() {
 	core.Register(&core.Property{
 		ID:    "C20",
 		Level: "exploration",
-		Rule: "typed queries from the C01 generator (every operator, set functions, dotted and map-element symbols, null tests, count / isEmpty incl. sub-queries with a constant inner predicate) plus 0-3 sort fields; the referenced symbol set R is known from the generator structure. " +
+		Rule: "typed queries from the C01 generator (every operator, set functions, dotted and map-element symbols, null tests, count / isEmpty incl. sub-queries whose inner predicate is generated over the linked store, constant, or over names both stores know, half of them with an inner sort clause) plus 0-3 sort fields; the referenced symbol set R is known from the generator structure. " +
 			"For each query: a store with every symbol public must accept; for every r in R that can be non-public a fresh store where exactly r is non-public (registered through AddSetSymbol / AddEntitySymbol / an un-published map / an un-published dotted symbol) must reject with an error naming r; " +
 			"random assignments must reject iff R meets the non-public set and name a referenced non-public symbol. Every third query is validated against a child store that was granted the parent's symbols and their visibility (GrantSymbols) instead of the store itself. Map elements follow their map. A reflection walk over the typed tree (not using Accept) lists the node kinds produced; the run is inconclusive unless every typed node kind occurred. " +
 			"non-trivial = distinct (query, assignment) pairs with at least two referenced symbols",
-		Assumptions: []string{"for sub-queries only the set symbol is judged (which store the inner symbols must be public for is not stated)", "id, the path-prefixed field and the fk field can only be registered public through the public API"},
+		Assumptions: []string{"names inside a sub-query (predicate at any depth, sort clause) are judged literally: they must be public for the store the query is validated against, a name that store does not know is not public for it", "id, the path-prefixed field and the fk field can only be registered public through the public API"},
 		Plan: func(tier core.Tier, seed int64) int {
 			if tier == core.Thorough {
 				return 40000
@@ -152,10 +207,10 @@ func init() {
 		},
 		Run: runC20,
 		Promises: func(core.Tier) map[string][]string {
-			return map[string][]string{"node_kind": c20NodeKinds, "position": {"sort-field", "set-function", "in-subject", "between-subject", "contains-subject", "null-test", "subquery-set", "map-element", "dotted", "nested-depth-3"}}
+			return map[string][]string{"node_kind": c20NodeKinds, "position": {"sort-field", "set-function", "in-subject", "between-subject", "contains-subject", "null-test", "subquery-set", "map-element", "dotted", "nested-depth-3", "inside-subquery"}}
 		},
 		MinCounters: func(core.Tier) map[string]int64 {
-			return map[string]int64{"single_private_rejections": 1500, "all_public_accepts": 1000, "validated_through_child_store": 300}
+			return map[string]int64{"single_private_rejections": 1500, "all_public_accepts": 800, "inner_symbol_rejections": 25, "validated_through_child_store": 300}
 		},
 	})
 }
@@ -172,14 +227,32 @@ func runC20(c *core.Ctx, idx int) {
 			c.Count("validated_through_child_store", 1)
 		}
 		depth := r.Intn(4)
-		e := stripSubQueries(g.Expr(depth))
+		e := shapeSubQueries(g.Expr(depth), r)
 		q := &qx.Query{Pred: e}
 		for i, n := 0, r.Intn(4); i < n; i++ {
 			q.Sort = append(q.Sort, qx.SortF{Sym: core.Pick(r, qx.SortSyms), Dir: core.Pick(r, []string{"", "asc", "desc"})})
 		}
 		text := q.Stream().Canon()
-		R := map[string]bool{}
-		referenced(e, R)
+		R, inner := map[string]bool{}, map[string]bool{}
+		referenced(e, R, inner)
+		var innerNames []string
+		for s := range inner {
+			innerNames = append(innerNames, s)
+		}
+		sort.Strings(innerNames)
+		// inner names that are not public for the validated store under a given assignment
+		innerNonPublic := func(private, pd map[string]bool) []string {
+			var out []string
+			for _, s := range innerNames {
+				if !innerPublicExpected(s, private, pd) {
+					out = append(out, s)
+				}
+			}
+			return out
+		}
+		if len(innerNames) > 0 {
+			c.Cover("position", "inside-subquery")
+		}
 		for _, f := range q.Sort {
 			R[f.Sym] = true
 			c.Cover("position", "sort-field")
@@ -196,7 +269,7 @@ func runC20(c *core.Ctx, idx int) {
 				dotted[s] = true
 			}
 		}
-		info := map[string]any{"query": text, "referenced": rs}
+		info := map[string]any{"query": text, "referenced": rs, "referenced_inside_subqueries": innerNames}
 		validate := func(private map[string]bool, publicDotted map[string]bool, st *schema.St) (error, bool) {
 			if st == nil {
 				st = buildC20Store(private, publicDotted, viaChild)
@@ -227,9 +300,19 @@ func runC20(c *core.Ctx, idx int) {
 			}
 		}
 		if err, ok := validate(nil, allDotted, stAll); ok {
-			c.Count("all_public_accepts", 1)
-			if err != nil {
-				c.Violationf("C20 query over public symbols rejected: "+c20Class(errSym(err), rs), info, "query %q (symbols %q all public): %v", text, rs, err)
+			inp := innerNonPublic(nil, allDotted)
+			if len(inp) == 0 {
+				c.Count("all_public_accepts", 1)
+				if err != nil {
+					c.Violationf("C20 query over public symbols rejected: "+c20Class(errSym(err), rs), info, "query %q (symbols %q all public): %v", text, rs, err)
+				}
+			} else {
+				c.Count("inner_symbol_rejections", 1)
+				if err == nil {
+					c.Violationf("C20 query referencing a non-public symbol inside a sub-query accepted", info, "query %q accepted although %q (inside a sub-query) are not public for the store", text, inp)
+				} else if !contains(inp, errSym(err)) {
+					c.Violationf("C20 rejection names a symbol that is not a referenced non-public one (inside a sub-query)", info, "query %q: error %v, non-public inner symbols %q", text, err, inp)
+				}
 			}
 		} else {
 			continue
@@ -268,6 +351,9 @@ func runC20(c *core.Ctx, idx int) {
 					allowed[o] = true
 				}
 			}
+			for _, o := range innerNonPublic(private, pd) {
+				allowed[o] = true
+			}
 			if err == nil {
 				c.Violationf("C20 query referencing a non-public symbol accepted: "+c20Class(target, rs), map[string]any{"query": text, "referenced": rs, "non_public": target},
 					"query %q accepted although %q is not public", text, target)
@@ -294,6 +380,7 @@ func runC20(c *core.Ctx, idx int) {
 					nonPublic = append(nonPublic, s)
 				}
 			}
+			nonPublic = append(nonPublic, innerNonPublic(private, pd)...)
 			c.Nontrivial(text, "random", len(nonPublic))
 			if (err != nil) != (len(nonPublic) > 0) {
 				c.Violationf("C20 random assignment: accept/reject differs from the referenced-symbol oracle", map[string]any{"query": text, "referenced": rs, "non_public": nonPublic}, "query %q: err=%v, referenced non-public symbols %q", text, err, nonPublic)
